@@ -138,9 +138,9 @@ def proof_leg(pid: str, extra_modules=(), leanchecker=False) -> Proof:
     audit.write_text(f'import Homonim.Props.{pid}\n' + ''.join(f'#print axioms {t}\n' for t in pr.theorems))
     r = lake(['env', 'lean', str(audit)])
     out = r.stdout + r.stderr
-    for m in re.finditer(r"'([^']+)' depends on axioms: \[([^\]]*)\]", out):
+    for m in re.finditer(r"^'(.+?)' depends on axioms: \[([^\]]*)\]", out, re.M):
         pr.axioms[m.group(1)] = [a.strip() for a in m.group(2).replace('\n', ' ').split(',') if a.strip()]
-    for m in re.finditer(r"'([^']+)' does not depend on any axioms", out):
+    for m in re.finditer(r"^'(.+?)' does not depend on any axioms", out, re.M):
         pr.axioms[m.group(1)] = []
     if r.returncode != 0:
         pr.errors.append(out[-3000:])
